@@ -107,7 +107,7 @@ public:
     if(buffer && (usize)(bufferStart - buffer) >= size)
     {
       bufferStart -= size;
-      Memory::copy(bufferStart, data, size);
+      Memory::move(bufferStart, data, size); // data may lie in the head-room of the buffer itself
       return;
     }
     usize oldSize = bufferEnd - bufferStart;
